@@ -47,14 +47,21 @@ type logWrap struct {
 	mu       sync.Mutex
 	appended int64
 	failNext int // fail the next k appends
-	events   []string
+	events   []logEvent
+}
+
+type logEvent struct {
+	ok             bool
+	topic, payload string
+	qos            int32
+	retain         bool
 }
 
 func (l *logWrap) Append(p *packet.Publish) error {
 	l.mu.Lock()
 	if l.failNext > 0 {
 		l.failNext--
-		l.events = append(l.events, "fail")
+		l.events = append(l.events, logEvent{})
 		l.mu.Unlock()
 		return errors.New("injected append failure")
 	}
@@ -68,14 +75,14 @@ func (l *logWrap) Append(p *packet.Publish) error {
 		if p.Header != nil {
 			r, q = p.Header.Retain, p.Header.Qos
 		}
-		l.events = append(l.events, fmt.Sprintf("ok\x00%s\x00%s\x00%d\x00%v", p.Topic, p.Payload, q, r))
+		l.events = append(l.events, logEvent{true, string(p.Topic), string(p.Payload), q, r})
 	} else {
-		l.events = append(l.events, "fail")
+		l.events = append(l.events, logEvent{})
 	}
 	l.mu.Unlock()
 	return err
 }
-func (l *logWrap) takeEvents() []string {
+func (l *logWrap) takeEvents() []logEvent {
 	l.mu.Lock()
 	defer l.mu.Unlock()
 	ev := l.events
